@@ -150,11 +150,23 @@ def check_ctor(ctx, F):
         for fid, b in insts(F, tmpl, {"payload"}):
             site = "%s::payload" % tmpl
             rets = [_expr_txt(x["e"]) for x in walk(b["body"]) if x.get("k") == "ret" and x.get("e") is not None]
-            ctx.instance("C14.ctor", site, {"function": site, "loc": F.floc(fid), "returns": rets})
-            if rets not in (["payloadSet?&storage:None"], ["this.payloadSet?&this.storage:None"]):
-                r = [x.replace("this.", "") for x in rets]
-                if r != ["payloadSet?&storage:None"]:
-                    ctx.violation("C14.ctor", site, "%s (%s)" % (site, F.floc(fid)), "payload() returns %s, expected payloadSet ? &storage : nullptr" % rets, {})
+            # what is returned when the flag is set / not set (any spelling of the choice: arms swapped under a negated test, if/else)
+            from .common import bexp, truth_table
+            table = set()
+            rn = [x["e"] for x in walk(b["body"]) if x.get("k") == "ret" and x.get("e") is not None]
+            e = strip(rn[0]) if len(rn) == 1 else {}
+            if e.get("k") == "cond":
+                atoms, tt = truth_table(bexp(F, e["c"], {}))
+                if len(atoms) == 1 and "payloadSet" in atoms[0]:
+                    def val(n):
+                        t = _expr_txt(n)
+                        return "storage" if "storage" in t else ("null" if t in ("None", "0", "nullptr") else t)
+                    # tt = (value for payloadSet False, value for payloadSet True)
+                    table = {(False, val(e["t"] if tt[0] else e["f"])), (True, val(e["t"] if tt[1] else e["f"]))}
+            ctx.instance("C14.ctor", site, {"function": site, "loc": F.floc(fid), "returns": rets, "by_flag": sorted(map(str, table))})
+            if table != {(True, "storage"), (False, "null")}:
+                ctx.violation("C14.ctor", site, "%s (%s)" % (site, F.floc(fid)),
+                              "payload() returns %s (by flag: %s), expected payloadSet ? &storage : nullptr" % (rets, sorted(map(str, table))), {})
 
 
 def size_align(F, arg):
